@@ -45,50 +45,62 @@ Proof.
   congruence.
 Qed.
 
-(* ------------------------------------------------------------------ set_edns0, one OPT *)
-Lemma has_opt_count l : has_opt l = false <-> count_opt l = O.
-Proof.
-  unfold has_opt, count_opt. induction l as [|[o|] l IH]; cbn; split; intros H; try reflexivity; try discriminate; apply IH; exact H.
-Qed.
-
+(* ------------------------------------------------------------------ set_edns0 *)
 Lemma all_options_no_opt l : has_opt l = false -> all_options l = [].
 Proof.
   unfold has_opt, all_options. induction l as [|[o|] l IH]; cbn; intros H; [reflexivity|discriminate|apply IH; exact H].
 Qed.
-
 Lemma all_options_opt o l : all_options (ROpt o :: l) = o_opts o ++ all_options l.
 Proof. reflexivity. Qed.
 Lemma all_options_other l : all_options (ROther :: l) = all_options l.
 Proof. reflexivity. Qed.
 Lemma last_opt_no_opt l : has_opt l = false -> last_opt l = None.
 Proof. unfold has_opt. induction l as [|[x|] l IH]; cbn; intros H; [reflexivity|discriminate|auto]. Qed.
-
-Lemma map_last_opt_single f l : count_opt l = 1%nat ->
-  exists o, last_opt l = Some o /\ all_options l = o_opts o /\ all_options (map_last_opt f l) = o_opts (f o).
+Lemma last_opt_has_opt l : has_opt l = true -> exists o, last_opt l = Some o.
 Proof.
-  unfold count_opt. induction l as [|[o|] l IH]; cbn [filter is_opt length map_last_opt last_opt]; intros H; [discriminate| |].
-  - inversion H as [H1]. assert (has_opt l = false) as HN by (apply has_opt_count; exact H1).
-    rewrite HN. exists o. rewrite (last_opt_no_opt l HN). rewrite !all_options_opt.
-    rewrite (all_options_no_opt l HN). rewrite !app_nil_r. auto.
-  - destruct (IH H) as [o [E1 [E2 E3]]]. exists o. rewrite !all_options_other. auto.
+  unfold has_opt. induction l as [|[x|] l IH]; cbn; intros H; [discriminate| |auto].
+  destruct (last_opt l) as [o|]; [exists o|exists x]; reflexivity.
 Qed.
 
-(* at most one OPT record in the query: after SetEdns0 every option anywhere in the additional
-   section is what new_opts produced *)
-Lemma set_edns0_single p client extra : (count_opt extra <= 1)%nat ->
+(* only the selected OPT survives, with the rewritten options *)
+Lemma keep_last_opt_options f l :
+  all_options (keep_last_opt f l) = match last_opt l with Some o => o_opts (f o) | None => [] end.
+Proof.
+  induction l as [|[o|] l IH]; cbn [keep_last_opt last_opt]; [reflexivity| |rewrite all_options_other; exact IH].
+  destruct (has_opt l) eqn:EH.
+  - rewrite IH. destruct (last_opt_has_opt l EH) as [o' E]. rewrite E. reflexivity.
+  - rewrite all_options_opt, (all_options_no_opt l EH), app_nil_r, (last_opt_no_opt l EH). reflexivity.
+Qed.
+Lemma keep_last_opt_count f l : has_opt l = true -> count_opt (keep_last_opt f l) = 1%nat.
+Proof.
+  unfold count_opt. induction l as [|[o|] l IH]; cbn [keep_last_opt]; intros H; [discriminate| |].
+  - destruct (has_opt l) eqn:EH; [apply IH; reflexivity|]. cbn.
+    assert (length (filter is_opt l) = O) as Z.
+    { clear -EH. unfold has_opt in EH. induction l as [|[x|] l IH]; cbn in *; [reflexivity|discriminate|auto]. }
+    rewrite Z. reflexivity.
+  - cbn. apply IH. exact H.
+Qed.
+
+(* after SetEdns0 every option anywhere in the additional section is what new_opts produced from
+   the selected OPT, for ANY number of OPT records in the query *)
+Lemma set_edns0_options p client extra :
   all_options (set_edns0 p client extra) =
   match last_opt extra with Some o => new_opts p client (o_opts o) | None => [] end.
 Proof.
-  intros H. unfold set_edns0.
-  destruct (has_opt extra) eqn:EH.
-  - assert (count_opt extra = 1%nat) as H1.
-    { destruct (count_opt extra) as [|[|n]] eqn:E; [|reflexivity|lia].
-      apply has_opt_count in E. congruence. }
-    destruct (map_last_opt_single (fun o => mk_optrr (o_version o) (new_opts p client (o_opts o))) extra H1) as [o [E1 [E2 E3]]].
-    rewrite E1, E3. reflexivity.
+  unfold set_edns0. destruct (has_opt extra) eqn:EH.
+  - rewrite keep_last_opt_options. destruct (last_opt extra); reflexivity.
   - unfold all_options. rewrite flat_map_app. cbn.
-    fold (all_options extra). rewrite (all_options_no_opt extra EH).
-    rewrite (last_opt_no_opt extra EH). reflexivity.
+    fold (all_options extra). rewrite (all_options_no_opt extra EH), (last_opt_no_opt extra EH). reflexivity.
+Qed.
+
+(* the upstream-bound request carries exactly one OPT record *)
+Lemma set_edns0_one_opt p client extra : count_opt (set_edns0 p client extra) = 1%nat.
+Proof.
+  unfold set_edns0. destruct (has_opt extra) eqn:EH; [apply keep_last_opt_count; exact EH|].
+  unfold count_opt. rewrite filter_app, app_length. cbn.
+  assert (length (filter is_opt extra) = O) as Z.
+  { clear -EH. unfold has_opt in EH. induction extra as [|[x|] l IH]; cbn in *; [reflexivity|discriminate|auto]. }
+  rewrite Z. reflexivity.
 Qed.
 
 Lemma last_opt_in_all extra o x : last_opt extra = Some o -> In x (o_opts o) -> In x (all_options extra).
@@ -101,26 +113,24 @@ Qed.
 
 (* upstream_ecs_only_when_allowed *)
 Lemma upstream_ecs_only_when_allowed_lemma p client extra e :
-  (count_opt extra <= 1)%nat ->
   In (OEcs e) (all_options (set_edns0 p client extra)) ->
   allows p client = true /\ exists cs, In (OEcs cs) (all_options extra) /\ clamp p (Some cs) = Some e.
 Proof.
-  intros H1 Hin. rewrite set_edns0_single in Hin by exact H1.
+  intros Hin. rewrite set_edns0_options in Hin.
   destruct (last_opt extra) as [o|] eqn:EL; [|destruct Hin].
   destruct (new_opts_shape p client (o_opts o)) as [E|[cs [f [E [HA [HI HC]]]]]]; rewrite E in Hin; [destruct Hin|].
   destruct Hin as [Hin|[]]. inversion Hin; subst f. split; [exact HA|].
   exists cs. split; [|exact HC]. eapply last_opt_in_all; eassumption.
 Qed.
 
-(* all_client_options_stripped (single OPT) *)
+(* all_client_options_stripped *)
 Lemma all_client_options_stripped_lemma p client extra :
-  (count_opt extra <= 1)%nat ->
   let out := all_options (set_edns0 p client extra) in
   (forall o, In o out -> exists e, o = OEcs e) /\ (length out <= 1)%nat /\
   (allows p client = false -> out = []) /\
   (has_ecs (all_options extra) = false -> out = []).
 Proof.
-  intros H1. cbn. rewrite set_edns0_single by exact H1.
+  cbn. rewrite set_edns0_options.
   destruct (last_opt extra) as [o|] eqn:EL.
   - destruct (new_opts_shape p client (o_opts o)) as [E|[cs [f [E [HA [HI HC]]]]]]; rewrite E.
     + repeat split; auto. intros x [].
@@ -134,65 +144,25 @@ Proof.
   - repeat split; auto. intros x [].
 Qed.
 
-(* ... and the statement without the single-OPT premise is false of the code: the witness is a
-   query with two OPT records, no policy at all *)
-Definition two_opt_query : list rr :=
-  [ROpt (mk_optrr 0 [OEcs (mk_ecs 1 32 0 (mk_ipb 4 3405803853)); OOther 10]); ROpt (mk_optrr 0 [])].
-Lemma all_client_options_stripped_refuted_lemma :
-  exists extra, all_options (set_edns0 None None extra) <> [] /\
-                In (OEcs (mk_ecs 1 32 0 (mk_ipb 4 3405803853))) (all_options (set_edns0 None None extra)) /\
-                client_has_ecs extra = false.
-Proof. exists two_opt_query. vm_compute. repeat split; [discriminate|left; reflexivity]. Qed.
-
 (* ------------------------------------------------------------------ the client-ECS marker *)
 Lemma marker_set_when_client_sent_ecs b remote extra :
-  (count_opt extra <= 1)%nat -> has_ecs (all_options extra) = true -> fst (edns_serve b remote extra) = true.
-Proof.
-  intros H1 HE. unfold edns_serve. cbn. unfold client_has_ecs.
-  destruct (count_opt extra) as [|[|n]] eqn:EC; [| |lia].
-  - apply has_opt_count in EC. rewrite (all_options_no_opt extra EC) in HE. discriminate.
-  - destruct (map_last_opt_single (fun o => o) extra EC) as [o [E1 [E2 _]]]. rewrite E1. rewrite <- E2. exact HE.
-Qed.
+  has_ecs (all_options extra) = true -> fst (edns_serve b remote extra) = true.
+Proof. intros HE. unfold edns_serve. cbn. exact HE. Qed.
 
 (* ------------------------------------------------------------------ replies *)
-Lemma strip_last_single x : strip_last [x] = [0].
-Proof. reflexivity. Qed.
-
-(* no_ecs_to_client (at most one OPT in the downstream response) *)
+(* no_ecs_to_client: whatever the downstream response and the request OPT carry *)
 Lemma no_ecs_to_client_lemma noedns trunc resp :
-  (length resp <= 1)%nat -> forall n, In n (reply_ecs_counts noedns trunc resp) -> n = 0.
-Proof.
-  intros H n. unfold reply_ecs_counts. destruct noedns; [intros []|].
-  destruct resp as [|x [|y r]]; cbn in H; [| |lia]; destruct trunc; cbn; intros [Hn|[]]; auto.
-Qed.
+  forall n, In n (reply_ecs_counts noedns trunc resp) -> n = 0.
+Proof. intros n. unfold reply_ecs_counts. destruct noedns; [intros []|intros [H|[]]; auto]. Qed.
 
-Lemma no_ecs_to_client_refuted_lemma :
-  exists resp, reply_ecs_counts false false resp = [1; 0] /\ reply_ecs_counts false true resp = [1].
-Proof.
-  exists [[OEcs (mk_ecs 1 24 24 (mk_ipb 4 3405803776))]; []]. split; reflexivity.
-Qed.
+Lemma reply_one_opt noedns trunc resp : (length (reply_ecs_counts noedns trunc resp) <= 1)%nat.
+Proof. unfold reply_ecs_counts. destruct noedns; cbn; lia. Qed.
 
-(* BADVERS answers with what SetEdns0 left on the request: with forwarding on, that is the clamped
-   subnet option *)
-Lemma badvers_reflects_ecs_refuted_lemma :
-  exists b remote extra, badvers_reply_counts b remote extra = [1].
+(* the BADVERS reply is a bare OPT *)
+Lemma badvers_reply_clean b remote extra : forall n, In n (badvers_reply_counts b remote extra) -> n = 0.
 Proof.
-  exists (mk_bargs true 0 0 0 0 []), (mk_ipb 4 3405803853),
-         [ROpt (mk_optrr 1 [OEcs (mk_ecs 1 32 0 (mk_ipb 4 3405803853))])].
-  vm_compute. reflexivity.
-Qed.
-(* with forwarding off nothing is reflected *)
-Lemma badvers_clean_without_policy b remote extra :
-  policy_of b = None -> (count_opt extra <= 1)%nat -> forall n, In n (badvers_reply_counts b remote extra) -> n = 0.
-Proof.
-  intros HP H1 n. unfold badvers_reply_counts. rewrite HP.
-  pose proof (set_edns0_single None (addr_from_slice_unmap remote) extra H1) as HS.
-  assert (all_options (set_edns0 None (addr_from_slice_unmap remote) extra) = []) as HE.
-  { rewrite HS. destruct (last_opt extra); reflexivity. }
-  clear HS. revert HE. generalize (set_edns0 None (addr_from_slice_unmap remote) extra) as l.
-  unfold opt_ecs_counts, all_options. induction l as [|[o|] l IH]; cbn; intros HE Hin; [destruct Hin| |auto].
-  apply app_eq_nil in HE. destruct HE as [E1 E2]. destruct Hin as [Hin|Hin]; [|auto].
-  rewrite E1 in Hin. cbn in Hin. auto.
+  intros n. unfold badvers_reply_counts, badvers_reply_extra.
+  destruct (last_opt extra); cbn; [intros [H|[]]; auto|intros []].
 Qed.
 
 (* ------------------------------------------------------------------ edns + cache agree *)
@@ -253,9 +223,9 @@ Lemma invalid_config_disables_lemma b : build_valid b = false ->
   (forall client, allows (policy_of b) client = false) /\
   (forall i, clamp (policy_of b) i = None) /\
   (forall client l, new_opts (policy_of b) client l = []) /\
-  (forall client extra, (count_opt extra <= 1)%nat -> all_options (set_edns0 (policy_of b) client extra) = []) /\
+  (forall client extra, all_options (set_edns0 (policy_of b) client extra) = []) /\
   (forall client opts, request_scope (policy_of b) client opts = None).
 Proof.
   intros H. rewrite (build_invalid_none b H). repeat split; try reflexivity.
-  intros client extra H1. rewrite set_edns0_single by exact H1. destruct (last_opt extra); reflexivity.
+  intros client extra. rewrite set_edns0_options. destruct (last_opt extra); reflexivity.
 Qed.
